@@ -29,7 +29,7 @@ def run(ctx):
     groups = {}
 
     def oracle(case, fi, fm):
-        v = W.oracle_calls(case, fi, fm)
+        v = W.oracle_calls(case, fi, fm) or W.oracle_fatal(case, fi, fm) or W.oracle_machine(case, fi, fm)
         if v:
             return v
         # sortedness of the implementation's output by the documented keys (name, version, extractor, location)
@@ -56,7 +56,11 @@ def run(ctx):
             return 'a finding of a filesystem extractor was emitted with an unexpected shape'
         g = fi.get('grp')
         if g is not None:
-            sig = (fi.get('err'), fi.get('pkgs'), st, tuple(sorted(W.fl(fi.get('calls')))), fi.get('fnd'))
+            # a failing scan (fatal filesystem error, inode limit) stops at a listing-order dependent point: its error class and visited count
+            # must not depend on the order, its partial attempt log may
+            ok_scan = fi.get('err') == 'none'
+            sig = (fi.get('err'), fi.get('pkgs'), st, tuple(sorted(W.fl(fi.get('calls')))) if ok_scan else (), fi.get('fnd'),
+                   fi.get('vis') if (ok_scan or fi.get('err') == 'maxinodes') else None)
             if g in groups and groups[g][0] != sig:
                 return 'the same content under another listing order gave a different result: %s vs %s (first order: %s)' % (sig[:3], groups[g][0][:3], groups[g][1][:200])
             groups.setdefault(g, (sig, case))
